@@ -308,7 +308,11 @@ func runAny(c *rig.Ctx, raw json.RawMessage, st *stats) bool {
 	if json.Unmarshal(raw, &probe) == nil && probe.Race != nil {
 		var rc RaceCase
 		json.Unmarshal(raw, &rc)
-		return runRace(c, rc)
+		if !runRace(c, rc) {
+			st.kind = "judge"
+			return false
+		}
+		return true
 	}
 	if json.Unmarshal(raw, &probe) == nil && probe.Dispatch != nil {
 		var d DCase
@@ -343,6 +347,7 @@ func main() {
 			runAny(c, raw, &st)
 			return
 		}
+		corpusJudged := false // a recorded case already shows the property failing: no need to search further
 		files, _ := filepath.Glob(filepath.Join(os.Getenv("VERIF_DIR"), "harness", "corpus", "C03", "*.json"))
 		sort.Strings(files)
 		for _, f := range files {
@@ -354,11 +359,13 @@ func main() {
 			var st stats
 			c.Case(string(env.Case), true, "corpus", nil)
 			c.Trace()
-			runAny(c, env.Case, &st)
+			if !runAny(c, env.Case, &st) && st.kind == "judge" {
+				corpusJudged = true
+			}
 		}
 		n := c.Budget(400, 20000)
 		var total stats
-		diffs, judged := 0, false
+		diffs, judged := 0, corpusJudged
 		var deadline time.Time
 		for i := 0; i < n && !judged; i++ {
 			if !deadline.IsZero() && time.Now().After(deadline) {
